@@ -251,7 +251,7 @@ def judge_case(d, stim, configs, hres, model_bin, runner=None):
 
 def configs_for(d, tier, idx):
     rams = [G.RAM_DEFAULT]
-    if d["family"] == "ram" or (d["family"] == "hier" and False):
+    if d["family"] in ("ram", "hram"):
         rams = [G.RAM_DEFAULT, G.RAM_SMALL]
     if tier == "quick":
         libs = [G.LIBS[idx % 4], G.LIBS[(idx + 1 + (idx // 4) % 3) % 4]]
